@@ -73,6 +73,7 @@ type Contract struct {
 	Emb          ABI      `json:"emb_abi"`
 	Reg          ABI      `json:"reg_abi"`
 	Calls        []Call   `json:"calls"`
+	RegCalls     []Call   `json:"reg_calls"`
 	Version      string   `json:"version"`
 	Deps         []string `json:"deps"`
 	FirstDiffOff int      `json:"first_script_diff"`
@@ -410,6 +411,7 @@ func main() {
 		ct.Emb, man = readABI(filepath.Join(repo, "contracts", c, "manifest.json"))
 		ct.Reg, _ = readABI(filepath.Join(regen, c, "manifest.json"))
 		ct.Calls = bindingCalls(filepath.Join(repo, "rpc", c, "rpcbinding.go"))
+		ct.RegCalls = bindingCalls(filepath.Join(regen, c, "rpcbinding.go"))
 		ct.Version = runVersion(ef, man)
 		ct.Deps = deps(filepath.Join(repo, "contracts", c))
 		o.Contracts = append(o.Contracts, ct)
